@@ -1,6 +1,7 @@
 package main
 
 import (
+	"fmt"
 	"go/constant"
 	"go/token"
 	"go/types"
@@ -166,6 +167,268 @@ func checkC08(c *Ctx) {
 	ea := newErrAnalysis(c, l)
 	ea.runE5("ERR-E5-sticky")
 	checkMergeOrder(c)
+	checkTraversalTable(c)
+}
+
+// checkTraversalTable decides the tree-walk iterator's per-node logic
+// (traversal.next) exhaustively over its finite decision domain: bounds
+// absent/present, ordering of start vs the node key and of the node key vs end,
+// inclusive, post-order, direction, leaf/inner — 256 environments.  For each
+// one the function is walked concretely and the observable effects (which
+// children are fetched, in which order they are stacked, whether the node is
+// yielded) are compared with the specification written here as data:
+//   afterStart = start absent or start < key; startOrAfter = afterStart or start == key
+//   beforeEnd  = end absent or key < end or (inclusive and key == end)
+//   leaf: yielded iff startOrAfter and beforeEnd
+//   inner: left child visited iff afterStart, right child iff beforeEnd (routing key = smallest key of the right subtree),
+//          stacked so that the left subtree is popped first when ascending and the right one first when descending
+func checkTraversalTable(c *Ctx) {
+	l := c.L
+	c.rule("ORDER-traversal-table", "tree-walk iterator: per-node range pruning and yield decided over all orderings", 200)
+	next := l.Func("", "*traversal.next")
+	ctor := l.Func("", "*Node.newTraversal")
+	if next == nil || ctor == nil {
+		c.anchorMissing("ORDER-traversal-table", "traversal.next / Node.newTraversal")
+		return
+	}
+	// the constructor stacks the start node unconditionally
+	okCtor := len(ctor.Blocks) == 1
+	if okCtor {
+		okCtor = false
+		for _, r := range returnsOf(ctor) {
+			role := ""
+			allInstrs(ctor, func(in ssa.Instruction) {
+				if st, ok := in.(*ssa.Store); ok {
+					if fa, ok := st.Addr.(*ssa.FieldAddr); ok && fieldName(fa.X.Type(), fa.Field) == "node" {
+						role = roleOf(l, st.Val, "", 0)
+					}
+				}
+			})
+			_ = r
+			if role == "recv" {
+				okCtor = true
+			}
+		}
+	}
+	c.decide("ORDER-traversal-table", "newTraversal stacks the start node unconditionally", l.pos(ctor.Pos()), okCtor, "single straight-line block; initial stack = {node, delayed}", "the traversal constructor branches (e.g. on the bounds) or does not stack the start node: the iteration domain must be decided per node in next(), the constructor is shared by the exclusive and the inclusive variants")
+
+	fieldRole := func(v ssa.Value) string {
+		ld, ok := stripTrivial(v).(*ssa.UnOp)
+		if !ok || ld.Op != token.MUL {
+			return ""
+		}
+		fa, ok := ld.X.(*ssa.FieldAddr)
+		if !ok {
+			return ""
+		}
+		return fieldName(fa.X.Type(), fa.Field)
+	}
+	type envT struct {
+		startNil, endNil     bool
+		ordS, ordE           int // cmp(start,key), cmp(key,end)
+		incl, post, asc, leaf bool
+	}
+	b2i := func(b bool) int {
+		if b {
+			return 1
+		}
+		return -1
+	}
+	total, bad := 0, 0
+	firstBad := ""
+	for _, sn := range []int{-2, -1, 0, 1} { // -2: absent
+		for _, en := range []int{-2, -1, 0, 1} {
+			for _, incl := range []bool{false, true} {
+				for _, post := range []bool{false, true} {
+					for _, asc := range []bool{false, true} {
+						for _, leaf := range []bool{false, true} {
+							e := envT{startNil: sn == -2, endNil: en == -2, ordS: sn, ordE: en, incl: incl, post: post, asc: asc, leaf: leaf}
+							cmpOf := func(a, b ssa.Value) (int, bool) {
+								ra, rb := fieldRole(a), fieldRole(b)
+								switch {
+								case ra == "start" && rb == "key":
+									return e.ordS, true
+								case ra == "key" && rb == "start":
+									return -e.ordS, true
+								case ra == "key" && rb == "end":
+									return e.ordE, true
+								case ra == "end" && rb == "key":
+									return -e.ordE, true
+								}
+								return 0, false
+							}
+							env := &walkEnv{evalAtom: func(w *walker, v ssa.Value) int {
+								switch x := v.(type) {
+								case *ssa.UnOp:
+									if x.Op == token.MUL {
+										switch fieldRole(x) {
+										case "inclusive":
+											return b2i(e.incl)
+										case "post":
+											return b2i(e.post)
+										case "ascending":
+											return b2i(e.asc)
+										}
+									}
+								case *ssa.Extract:
+									if call, ok := x.Tuple.(*ssa.Call); ok {
+										if f := staticCallee(&call.Call); f != nil && f.Name() == "pop" && x.Index == 1 {
+											return 1 // delayed
+										}
+									}
+								case *ssa.Call:
+									if f := staticCallee(&x.Call); f != nil {
+										switch {
+										case f.Name() == "isLeaf":
+											return b2i(e.leaf)
+										case f.String() == "bytes.Equal":
+											if o, ok := cmpOf(x.Call.Args[0], x.Call.Args[1]); ok {
+												return b2i(o == 0)
+											}
+										}
+									}
+								case *ssa.BinOp:
+									// nil tests
+									if vv, nn, ok := nilCond(x); ok {
+										isNil := 0
+										switch {
+										case fieldRole(vv) == "start":
+											isNil = b2i(e.startNil)
+										case fieldRole(vv) == "end":
+											isNil = b2i(e.endNil)
+										case isErrorType(vv.Type()):
+											isNil = 1
+										default:
+											isNil = -1 // the popped node is present
+										}
+										if nn == 0 { // cond is v != nil
+											return -isNil
+										}
+										return isNil
+									}
+									if call, ok := stripTrivial(x.X).(*ssa.Call); ok {
+										if f := staticCallee(&call.Call); f != nil {
+											if f.String() == "bytes.Compare" {
+												if k, isC := constInt(x.Y); isC {
+													if o, ok := cmpOf(call.Call.Args[0], call.Call.Args[1]); ok {
+														return cmpHolds(x.Op, sign(int64(o)-k))
+													}
+												}
+											}
+											if f.Name() == "length" {
+												return cmpHolds(x.Op, 1) // stack not empty
+											}
+										}
+									}
+								}
+								return 0
+							}}
+							w := &walker{env: env, vals: map[ssa.Value]int{}}
+							w.onCall = func(w *walker, call *ssa.Call) {
+								f := staticCallee(&call.Call)
+								if f == nil {
+									return
+								}
+								switch f.Name() {
+								case "getLeftNode":
+									w.events = append(w.events, "L")
+								case "getRightNode":
+									w.events = append(w.events, "R")
+								case "push":
+									if k, ok := stripTrivial(call.Call.Args[2]).(*ssa.Const); ok && k.Value != nil && k.Value.String() == "false" {
+										w.events = append(w.events, "self")
+									}
+								case "next":
+									w.events = append(w.events, "recurse")
+								}
+							}
+							ret, stuck := w.run(next)
+							total++
+							got := strings.Join(w.events, ",")
+							if ret != nil {
+								v := stripTrivial(retVal(ret, 0))
+								switch v.(type) {
+								case *ssa.Extract:
+									if ex := v.(*ssa.Extract); ex.Index == 0 {
+										if call, ok := ex.Tuple.(*ssa.Call); ok {
+											if f := staticCallee(&call.Call); f != nil && f.Name() == "pop" {
+												got += "|yield"
+											} else {
+												got += "|next"
+											}
+										}
+									}
+								default:
+									got += "|other"
+								}
+							} else {
+								got += "|stuck"
+							}
+							// specification
+							afterStart := e.startNil || e.ordS < 0
+							startOrAfter := afterStart || e.ordS == 0
+							beforeEnd := e.endNil || e.ordE < 0 || (e.incl && e.ordE == 0)
+							var want []string
+							inRange := startOrAfter && beforeEnd
+							if e.post && (!e.leaf || inRange) {
+								want = append(want, "self")
+							}
+							if !e.leaf {
+								if e.asc {
+									if beforeEnd {
+										want = append(want, "R")
+									}
+									if afterStart {
+										want = append(want, "L")
+									}
+								} else {
+									if afterStart {
+										want = append(want, "L")
+									}
+									if beforeEnd {
+										want = append(want, "R")
+									}
+								}
+							}
+							ws := strings.Join(want, ",")
+							if !e.post && (!e.leaf || inRange) {
+								ws += "|yield"
+							} else {
+								if ws != "" {
+									ws += ","
+								}
+								ws += "recurse|next"
+							}
+							envDesc := fmt.Sprintf("start:%s end:%s inclusive=%v post=%v ascending=%v leaf=%v", ordName(sn, "start", "key"), ordName(en, "key", "end"), incl, post, asc, leaf)
+							msg := ""
+							if got != ws {
+								bad++
+								msg = "code does [" + got + "], the range specification says [" + ws + "]"
+								if stuck != nil {
+									msg += " (walk stuck at " + l.ipos(stuck) + ")"
+								}
+							}
+							c.decide("ORDER-traversal-table", "traversal.next "+envDesc, l.pos(next.Pos()), got == ws, "effects ["+got+"] as specified", msg)
+						}
+					}
+				}
+			}
+		}
+	}
+	c.note("traversal.next: %d environments walked, %d deviate", total, bad)
+	_ = firstBad
+}
+
+func ordName(o int, a, b string) string {
+	switch o {
+	case -2:
+		return "absent"
+	case -1:
+		return a + "<" + b
+	case 0:
+		return a + "==" + b
+	}
+	return a + ">" + b
 }
 
 // checkMergeOrder decides the two-cursor merge predicate and the overlay
@@ -322,7 +585,7 @@ func checkMergeOrder(c *Ctx) {
 	for _, bound := range []string{"start", "end"} {
 		for _, ord := range []int{-1, 0, 1} {
 			env := &ordEnv{cmp: func(x, y ssa.Value) (int, bool) {
-				if strings.HasSuffix(roleOf(l, y, "", 0), bound) {
+				if valueName(y) == bound {
 					return ord, true
 				}
 				return 0, false
